@@ -258,29 +258,52 @@ fn tokens(src: &str) -> Option<Vec<(usize, usize)>> {
 
 fn trivia(rng: &mut Rng) -> String {
     let pool = [
-        " ", " ", " ", "  ", "\n", "\n", "\r\n", "\t", "\n\n", " /* c */ ", "/**/", " // line\n", " /* x >= y; i++; require(a && b) */ ", "\n// address(this).balance\n",
+        " ", " ", " ", "  ", "\n", "\n", "\r\n", "\t", "\n\n", " /* c */ ", " /**/ ", " // line\n", " /* x >= y; i++; require(a && b) */ ", "\n// address(this).balance\n",
         " /* \u{e9}\u{1F600} */ ", "\n\n\n", " /* multi\n line\n */ ", "\r\n\r\n", " /*** doc-ish */ ", "\n/// natspec a * 2\n",
     ];
     pool[rng.below(pool.len())].to_string()
 }
 
-pub fn relayout(src: &str, rng: &mut Rng) -> Option<(String, Vec<(usize, usize)>, Vec<(usize, usize)>)> {
+pub fn relayout(src: &str, rng: &mut Rng, minimal: bool) -> Option<(String, Vec<(usize, usize)>, Vec<(usize, usize)>)> {
     let toks = tokens(src)?;
     let mut out = String::new();
     let mut new_toks = vec![];
-    if rng.chance(1, 2) {
+    if !minimal && rng.chance(1, 2) {
         out.push_str(&trivia(rng));
     }
-    for (s, e) in &toks {
-        let start = out.len();
-        out.push_str(&src[*s..*e]);
-        new_toks.push((start, out.len()));
-        let k = 1 + rng.below(2);
-        for _ in 0..k {
-            out.push_str(&trivia(rng));
+    let mut i = 0;
+    while i < toks.len() {
+        let (s, e) = toks[i];
+        if &src[s..e] == "pragma" {
+            // a pragma directive is copied verbatim up to its `;`: its value is one token that runs to the
+            // semicolon, so trivia inside it would change the value, not only the layout
+            let mut j = i;
+            while j < toks.len() && &src[toks[j].0..toks[j].1] != ";" {
+                j += 1;
+            }
+            let j = j.min(toks.len() - 1);
+            let base = out.len();
+            out.push_str(&src[s..toks[j].1]);
+            for k in i..=j {
+                new_toks.push((base + toks[k].0 - s, base + toks[k].1 - s));
+            }
+            i = j + 1;
+        } else {
+            let start = out.len();
+            out.push_str(&src[s..e]);
+            new_toks.push((start, out.len()));
+            i += 1;
+        }
+        if minimal {
+            out.push(' ');
+        } else {
+            let k = 1 + rng.below(2);
+            for _ in 0..k {
+                out.push_str(&trivia(rng));
+            }
         }
     }
-    if rng.chance(1, 3) {
+    if !minimal && rng.chance(1, 3) {
         // no trailing newline / trivia at all after the last token
         if let Some((_, e)) = new_toks.last() {
             out.truncate(*e);
@@ -289,18 +312,73 @@ pub fn relayout(src: &str, rng: &mut Rng) -> Option<(String, Vec<(usize, usize)>
     Some((out, toks, new_toks))
 }
 
+/// The same file with the content of every string literal replaced by code-like text of the same byte length
+/// (so every token keeps its offsets): no detector may react to what is written inside a string.
+pub fn restring(src: &str) -> Option<(String, usize)> {
+    let toks = tokens(src)?;
+    let filler = "x.balance==0;i++;require(a&&b,c);selfdestruct(a);a=a+1;tx.origin;";
+    let mut out = src.as_bytes().to_vec();
+    let mut n = 0;
+    let mut in_directive = false;
+    for (s, e) in toks {
+        let t = &src[s..e];
+        if t == "pragma" || t == "import" {
+            in_directive = true;
+        }
+        if t == ";" {
+            in_directive = false;
+        }
+        let q = if t.starts_with("unicode") { 7 } else { 0 };
+        let body = &t[q..];
+        if !in_directive && body.len() >= 2 && (body.starts_with('"') || body.starts_with('\'')) {
+            for (k, i) in ((s + q + 1)..(e - 1)).enumerate() {
+                out[i] = filler.as_bytes()[k % filler.len()];
+            }
+            n += 1;
+        }
+    }
+    String::from_utf8(out).ok().map(|s| (s, n))
+}
+
 pub fn relayout_requests(ctx: &mut Ctx, rng: &mut Rng) {
     let n = if ctx.thorough { 1500 } else { 120 };
     let fs = file_set(ctx, rng, n, Cfg { allow_assembly: true, ..Cfg::default() });
-    for (k, (name, src)) in fs.iter().enumerate() {
+    for (k, (name, src0)) in fs.iter().enumerate() {
+        // base layout: every token separated from the next by one space, so that token starts and token
+        // ends are disjoint sets of offsets (a location's end can be the start of the following token)
+        let src_owned = match relayout(src0, rng, true) {
+            Some((s, _, _)) => s,
+            None => {
+                ctx.count("relayout_lex_failed", 1);
+                continue;
+            }
+        };
+        let src = &src_owned;
         let id1 = format!("a{}:{}", k, name);
         let su1 = match emit_file(ctx, &id1, src, 0) {
             Some(s) => s,
             None => continue,
         };
+        if let Some((src3, nlit)) = restring(src) {
+            if nlit > 0 {
+                let id3 = format!("s{}:{}", k, name);
+                match emit_file(ctx, &id3, &src3, 0) {
+                    Some(su3) => {
+                        ctx.count("restring_files", 1);
+                        ctx.count("restring_literals", nlit as u64);
+                        for (dname, d) in real::detectors() {
+                            let r1 = real::run_detector(d, &su1);
+                            let r3 = real::run_detector(d, &su3);
+                            ctx.line(&["STRLIT", &id1, &id3, dname, &real::fmt_locs(&r1), &real::fmt_locs(&r3)]);
+                        }
+                    }
+                    None => ctx.count("restring_rejected", 1),
+                }
+            }
+        }
         let reps = if ctx.thorough { 3 } else { 2 };
         for r in 0..reps {
-            let (src2, toks1, toks2) = match relayout(src, rng) {
+            let (src2, toks1, toks2) = match relayout(src, rng, false) {
                 Some(x) => x,
                 None => {
                     ctx.count("relayout_lex_failed", 1);
@@ -323,6 +401,7 @@ pub fn relayout_requests(ctx: &mut Ctx, rng: &mut Rng) {
                 ctx.line(&["RELAY", &id1, &id2, dname, &real::fmt_locs(&r1), &real::fmt_locs(&r2)]);
             }
             // the reported lines of the re-laid-out file (C02 oracle applies to them as to any file)
+            emit_dets(ctx, &id2, &su2, &[]);
             super::files::emit_lines_pub(ctx, &id2, &src2, 0);
         }
     }
